@@ -182,6 +182,7 @@ func degOf(ind *reg.Indicator, j int) reg.Degree {
 func c15(ctx *run.Ctx) {
 	for b := 0; b < ctx.Pick(4, 40); b++ {
 		ctx.Case(fmt.Sprintf("float32/%d", b), c15Float32)
+		ctx.Case(fmt.Sprintf("float32huge/%d", b), c15Float32Huge)
 	}
 	nrand := ctx.Pick(6, 60)
 	lengths := []int{60, 160}
